@@ -39,6 +39,7 @@ from cnfgen.formula.cnfio import guess_output_format
 
 from cnfgen.clitools.cmdline import paginate_or_redirect_stdout
 from cnfgen.clitools.cmdline import setup_SIGINT
+from cnfgen.clitools.cmdline import early_comment_prefix
 from cnfgen.clitools.cmdline import CLIParser, CLIError, CLIHelpFormatter
 
 from cnfgen.clitools.cmdline import get_formula_helpers
@@ -484,7 +485,9 @@ def cli(argv=None, mode='output'):
 
     # Be lenient on non string arguments
     argv = [str(x) for x in argv]
-    with msg_prefix('c '):
+    early_prefix = early_comment_prefix(argv, 'dimacs',
+                                        [h.name for h in formula_helpers])
+    with msg_prefix(early_prefix):
         args, t_args = parse_command_line(argv, parser, t_parser)
 
     #  Determine output format
